@@ -25,7 +25,7 @@ SPEC = {
 
 def plan(tier, seed):
     n = 16 if tier == "quick" else 64
-    per = 260 if tier == "quick" else 1200
+    per = 700 if tier == "quick" else 4000
     return [{"seed": seed, "shard": i, "nshards": n, "n": per, "tier": tier} for i in range(n)]
 
 
@@ -183,20 +183,53 @@ def range_probe(pt, acc, rng):
         acc.violation("range_rt_not_failed", case, "%s.set(expr=%d) at v%d: status=%s logs=%r" % (tname, over, version, r.status, r.logs))
     else:
         acc.counters["range_rt_failed"] += 1
+    # the same values given as expressions of other spellings: a bare Int literal, a computed constant, inside a tuple
+    for spelling in ("int_literal", "computed", "in_tuple"):
+        for val, must_fail in ((over, True), (fit, False)):
+            reset_globals()
+            x = ts.new_instance()
+            try:
+                e = pt.Int(val) if spelling != "computed" else (pt.Int(val - 1) + pt.Int(1) if val > 0 else pt.Int(0))
+                if spelling == "in_tuple":
+                    b0 = pt.abi.Bool()
+                    tup = pt.abi.TupleTypeSpec(pt.abi.BoolTypeSpec(), ts).new_instance()
+                    prog2 = pt.Seq(b0.set(True), x.set(e), tup.set(b0, x), pt.Log(tup.encode()), pt.Int(1))
+                    want = b"\x80" + val.to_bytes(bits // 8, "big") if not must_fail else None
+                else:
+                    prog2 = pt.Seq(x.set(e), pt.Log(x.encode()), pt.Int(1))
+                    want = val.to_bytes(bits // 8, "big") if not must_fail else None
+                teal2 = pt.compileTeal(prog2, pt.Mode.Application, version=version)
+            except PT_ERRORS:
+                if must_fail:
+                    acc.counters["range_expr_rejected_at_build"] += 1
+                else:
+                    acc.violation("range_rt_fit_wrong", dict(case, spelling=spelling), "%s.set(%s %d) rejected although it fits" % (tname, spelling, val))
+                continue
+            r2 = avm.run(avm.parse_any(teal2), avm.Ctx())
+            if must_fail and r2.status != "fail":
+                acc.violation("range_rt_not_failed", dict(case, spelling=spelling), "%s.set(%s %d) at v%d: status=%s logs=%r" % (tname, spelling, val, version, r2.status, r2.logs))
+            elif not must_fail and (r2.status != "approve" or r2.logs != [want]):
+                acc.violation("range_rt_fit_wrong", dict(case, spelling=spelling), "%s.set(%s %d) at v%d: status=%s logs=%r" % (tname, spelling, val, version, r2.status, r2.logs))
+            else:
+                acc.counters["range_expr_" + spelling + ("_failed" if must_fail else "_ok")] += 1
     r = avm.run(p, avm.Ctx(group=[{"ApplicationArgs": [fit.to_bytes(8, "big")]}]))
     if r.status != "approve" or r.logs != [fit.to_bytes(bits // 8, "big")]:
         acc.violation("range_rt_fit_wrong", case, "%s.set(expr=%d) at v%d: status=%s logs=%r" % (tname, fit, version, r.status, r.logs))
 
 
 def gen_case(rng, shapes, i, tier):
+    boundary = False
     if shapes and i < len(shapes):
         tstr = shapes[i]
+    elif rng.random() < .2:
+        tstr = abigen.boundary_shape(rng)
+        boundary = True
     else:
         tstr = abigen.rand_type(rng, maxdepth=rng.choice([1, 2, 3, 3, 4]))
     st = abigen.sdk(tstr)
     for _ in range(20):
         val = abigen.rand_val(rng, st)
-        if _nodes(val) <= 110:
+        if _nodes(val) <= (110 if boundary else 110):
             break
     else:
         tstr = "(uint64,bool,string)"
